@@ -85,9 +85,40 @@ def gen_migrate_v0_script(rng):
     return '\n'.join(L) + '\n'
 
 
+def gen_two_damages_script(rng):
+    """Two isolated damaged records of DIFFERENT classes in one blob (the metadata of an earlier record does not decode
+    any more, the header checksum of a later one is wrong; the sizes in both headers are intact): recovery with
+    skipping steps over both and keeps every other record."""
+    m = rng.randrange(4, 9)
+    L = ['cfg K=4 dup=1 group=2 bloom=none init=eager runtime=mt validate=%d' % rng.choice([0, 1]), 'open', 'nop two-damages']
+    layout = []
+    off = 20
+    for i in range(m):
+        ln = rng.choice([5, 40, 300, 5000])
+        key = (16 + i).to_bytes(4, 'big').hex()
+        L.append('W %s 7 m1 %d %d' % (key, ln, i + 1))
+        layout.append((key, ln, i + 1, off))
+        off += 61 + MS['m1'] + ln
+    L.append('close')
+    # isolated: at least one intact record between the two (a retry after a skipped record is not skipped again)
+    a = rng.randrange(0, m - 2)
+    b = rng.randrange(a + 2, m)
+    if rng.random() < 0.2:
+        a, b = b, a            # the header damage first, the metadata damage behind it
+    L.append('flip blob 0 %d 01' % (layout[a][3] + 61))            # number of pairs 1 -> 0: the map no longer takes its bytes
+    L.append('flip blob 0 %d %02x' % (layout[b][3] + 57 + rng.randrange(4), 1 << rng.randrange(8)))   # header checksum
+    L.append('nop damaged=%s,%s' % (layout[a][0], layout[b][0]))
+    L += ['tool recover 0 0 1', 'tool validate_out 0', 'tool install 0', 'open']
+    for (k2, l2, s2, _o) in layout:
+        L.append('R %s' % k2)
+    L.append('counts')
+    return '\n'.join(L) + '\n'
+
+
 def gen(tier, rng):
     n = 240 if tier == 'quick' else 5000
-    return [('tools%05d' % i, gen_script(rng)) for i in range(n)] + [('migv0%05d' % i, gen_migrate_v0_script(rng)) for i in range(n // 12)]
+    return [('tools%05d' % i, gen_script(rng)) for i in range(n)] + [('migv0%05d' % i, gen_migrate_v0_script(rng)) for i in range(n // 12)] + \
+           [('twodmg%05d' % i, gen_two_damages_script(rng)) for i in range(n // 12)]
 
 
 META_IMG = {'-': bytes(8), 'm1': (1).to_bytes(8, 'little') + (1).to_bytes(8, 'little') + b'v' + (1).to_bytes(8, 'little') + b'1'}
@@ -133,6 +164,20 @@ def meta_still_ok(lines, rec, pos, mask):
 def oracle(lines, io, spec=None):
     fails = []
     K = 4
+    if 'nop two-damages' in lines:
+        dmg = next(l for l in lines if l.startswith('nop damaged=')).split('=')[1].split(',')
+        for cmd, want in (('tool recover 0 0 1', 'tool recover ok'), ('tool validate_out 0', 'tool validate_out ok'), ('open', 'open ok')):
+            i = [j for j, l in enumerate(lines) if l == cmd][-1]
+            if i >= len(io) or not io[i].startswith(want):
+                fails.append('`%s` after two isolated damaged records: %s' % (cmd, io[i] if i < len(io) else None))
+                return fails
+        for l in lines:
+            if l.startswith('W ') and l.split()[1] not in dmg:
+                t = l.split()
+                i = [j for j, x in enumerate(lines) if x == 'R ' + t[1]][-1]
+                if i < len(io) and io[i] != 'R Found %s %s' % (t[4], t[5]):
+                    fails.append('intact record %s is not served with its original bytes from the recovered blob (damaged records: %s): %s' % (t[1], ','.join(dmg), io[i]))
+        return fails[:3]
     if 'nop migrate-v0' in lines:
         ws = [l.split() for l in lines if l.startswith('W ')]
         for cmd, want in (('tool migrate 0 1', 'tool migrate ok'), ('tool validate_out 0', 'tool validate_out ok'), ('open', 'open ok')):
